@@ -32,6 +32,11 @@ CHECKS = {
          'Bounded symbolic verification: for every point of the C01-C03 boxes and a table of command lines z3 decides that the two renderings have the same models; names and counts compared exactly.',
          'Trusted: z3 pseudo-Boolean reasoning; reading of OPB rows as documented. Outside: parameters beyond the boxes, unseeded random families.',
          'DESIGN.md section 3 C08'),
+ 'C04': ('CrossHair symbolic execution of the real constraint builders (symbolic polarities, assignment, container kind, UNBOUNDED integer constant) + SMT equivalence (z3) for larger lists and mapping builders',
+         'Bounded symbolic verification: per fixed number of literals (<=3 quick, <=4 thorough) CrossHair/z3 confirms over all paths that the rows added are satisfied exactly when the arithmetic condition holds, for every integer constant; '
+         'normalize_opb for every degree; engine S extends to <=7 literals with the constant swept and to all mapping shapes of the box.',
+         'Trusted: CrossHair 0.0.110 models of int/bool/list/tuple/range/generator, z3. Conditions that end "Not confirmed" are reported inconclusive and not counted.',
+         'DESIGN.md section 3 C04'),
 }
 NA = {}
 
